@@ -15,11 +15,16 @@ Inductive hop :=
 | HQuery                            (* the observations, taken through the CURRENT session *)
 | HMisname (a b : json).            (* os.rename(workspace/id(a), workspace/id(b)) when possible: corruption *)
 
-Inductive ret := RUnit | RNone | RNum (n : N) | RExn (e : exn) | RObs (o : obs).
+(* the observations made through one session: the listed-id observations of Cache.obs, then open_job(id=p)
+   followed by statepoint() for every ABBREVIATED id p of the case *)
+Definition pre_obs := list (str * result (str * result json)).
+Record xobs := mkX { x_obs : obs; x_pre : pre_obs }.
+
+Inductive ret := RUnit | RNone | RNum (n : N) | RExn (e : exn) | RObs (o : xobs).
 
 Record sobs := mkSobs {
-  so_with : obs;                    (* fresh session, cache file as it is *)
-  so_without : obs;                 (* fresh session, cache file moved away *)
+  so_with : xobs;                   (* fresh session, cache file as it is *)
+  so_without : xobs;                (* fresh session, cache file moved away *)
   so_file : option cache            (* decoded content of the cache file *)
 }.
 
@@ -29,6 +34,7 @@ Record case_C08 := {
   c8_ftab : list (fl * str);        (* repr() of the floats of the universe *)
   c8_univ : list json;              (* every state point that occurs: its file text is dumps of it *)
   c8_key : str; c8_val : json;      (* the filter {key: val} used by every find_jobs *)
+  c8_pres : list str;               (* the abbreviated ids opened in every observation *)
   c8_steps : list hstep
 }.
 
@@ -59,6 +65,11 @@ Section INST.
 
   Definition fs0 : fs := [([DOTSIGNAC], Dir); ([WS], Dir)].
 
+  Definition xobserve (f : fs) (s : sess) : sess * xobs :=
+    let '(s1, ob) := observe fr8 ls8 lb8 f s ev8 in
+    let '(s2, pre) := open_pres fr8 lb8 f s1 (c8_pres c) in
+    (s2, mkX ob pre).
+
   Definition ret_unit (r : result unit) : ret := match r with Ok _ => RUnit | Err e => RExn e end.
 
   Definition mstep (st : fs * sess) (o : hop) : (fs * sess) * ret :=
@@ -75,7 +86,7 @@ Section INST.
         end
     | HRestart => ((f, fresh), RUnit)
     | HDelCache => ((match unlink f CACHEP with FOk f1 => f1 | FErr _ => f end, s), RUnit)
-    | HQuery => let '(s1, ob) := observe fr8 ls8 lb8 f s ev8 in ((f, s1), RObs ob)
+    | HQuery => let '(s1, ob) := xobserve f s in ((f, s1), RObs ob)
     | HMisname a b =>
         ((if isdir f (jdir (cid8 a)) && negb (exists_ f (jdir (cid8 b))) then
             match rename f (jdir (cid8 a)) (jdir (cid8 b)) with FOk f1 => f1 | FErr _ => f end
@@ -83,9 +94,7 @@ Section INST.
     end.
 
   Definition mobs (f : fs) : sobs :=
-    mkSobs (snd (observe fr8 ls8 lb8 f fresh ev8))
-           (snd (observe fr8 ls8 lb8 (without_cache f) fresh ev8))
-           (cache_file f).
+    mkSobs (snd (xobserve f fresh)) (snd (xobserve (without_cache f) fresh)) (cache_file f).
 
   (* ------------------------------------------------------------ comparing observations *)
   Definition json_same8 (a b : json) : bool := json_eqb (norm a) (norm b).
@@ -113,6 +122,19 @@ Section INST.
     && seteq_s (o_ids a) (o_ids b) && Nat.eqb (length (o_ids a)) (length (o_ids b))
     && opens_same (o_open a) (o_open b).
 
+  Definition res_pre_same (a b : result (str * result json)) : bool :=
+    match a, b with
+    | Ok (m, x), Ok (m', y) => str_eqb m m' && res_json_same x y
+    | Err e, Err e' => exn_eqb e e'
+    | _, _ => false
+    end.
+
+  Definition pres_same (a b : pre_obs) : bool :=
+    Nat.eqb (length a) (length b) &&
+    forallb (fun p => match alookup (fst p) b with Some r => res_pre_same (snd p) r | None => false end) a.
+
+  Definition xobs_same (a b : xobs) : bool := obs_same (x_obs a) (x_obs b) && pres_same (x_pre a) (x_pre b).
+
   Definition cache_le (a b : cache) : bool :=
     forallb (fun p => match alookup (fst p) b with Some v => json_same8 (snd p) v | None => false end) a.
   Definition cache_same (a b : cache) : bool :=
@@ -130,12 +152,12 @@ Section INST.
     | RUnit, RUnit | RNone, RNone => true
     | RNum n, RNum m => N.eqb n m
     | RExn e, RExn e' => exn_eqb e e'
-    | RObs x, RObs y => obs_same x y
+    | RObs x, RObs y => xobs_same x y
     | _, _ => false
     end.
 
   Definition sobs_same (a b : sobs) : bool :=
-    obs_same (so_with a) (so_with b) && obs_same (so_without a) (so_without b)
+    xobs_same (so_with a) (so_with b) && xobs_same (so_without a) (so_without b)
     && file_same (so_file a) (so_file b).
 
   (* model run against the recorded steps *)
@@ -165,9 +187,9 @@ Section INST.
 
   (* clause 2: transparency *)
   Definition clause_transparent (r : ret) (o : sobs) : bool :=
-    negb (uncorrupted (so_without o))
-    || (obs_same (so_with o) (so_without o)
-        && match r with RObs q => obs_same q (so_without o) | _ => true end).
+    negb (uncorrupted (x_obs (so_without o)))
+    || (xobs_same (so_with o) (so_without o)
+        && match r with RObs q => xobs_same q (so_without o) | _ => true end).
 
   (* clause 3: exactness after update_cache returned; [next] = result of an immediately following call *)
   Definition exact_file (o : sobs) : bool :=
@@ -175,8 +197,8 @@ Section INST.
     | None => false
     | Some k =>
         keys_distinct (map fst k)
-        && seteq_s (map fst k) (o_ids (so_without o))
-        && forallb (fun p => match alookup (fst p) (o_open (so_without o)) with
+        && seteq_s (map fst k) (o_ids (x_obs (so_without o)))
+        && forallb (fun p => match alookup (fst p) (o_open (x_obs (so_without o))) with
                              | Some (Ok v) => json_same8 (snd p) v
                              | _ => false
                              end) k
@@ -185,7 +207,7 @@ Section INST.
   Definition clause_exact (x : hstep) (o : sobs) (next : option hstep) : bool :=
     match st_op x, st_ret x with
     | HUpdate, RNone | HUpdate, RNum _ =>
-        negb (uncorrupted (so_without o))
+        negb (uncorrupted (x_obs (so_without o)))
         || (exact_file o
             && match st_ret x, so_file o with RNum n, Some k => N.eqb n (N.of_nat (length k)) | _, _ => true end
             && match next with
